@@ -21,6 +21,7 @@ V2_GENERIC = [
     "V2_reindex.recalculate_ids.*", "V2_reindex.fn:recalculate_ids",
     "V2_reindex.lemma.*", "V2_reindex.fn:lemma_*", "V2_reindex.fn:sel", "V2_reindex.fn:sel_idx",
     "V2_reindex.LocalOrImport.is_import_is_not_local",
+    "V2_reindex.compute_index_mappings.*", "V2_reindex.fn:Module::compute_index_mappings",
 ]
 def v2_inst(item, cont):
     return ["V2_reindex.fn:%s as GetID::*" % item, "V2_reindex.fn:%s as LocalOrImport::*" % item,
@@ -45,13 +46,13 @@ V6_DELETES = ["V6_api.delete_func.*", "V6_api.fn:Module::delete_func", "V6_api.F
 
 V8_BASE = ["V8_lower.fn:lemma_*", "V8_lower.fn:FunctionModifier as *", "V8_lower.fn:Instrumenter::*", "V8_lower.fn:Inject::inject", "V8_lower.fn:Opcode::*",
            "V8_lower.fn:InstrumentationFlag::*", "V8_lower.fn:Instruction::add_instr", "V8_lower.fn:FuncInstrFlag::add_instr", "V8_lower.fn:v_inject_all"]
-LOWER_GLUE = ["Module::resolve_special_instrumentation: the per-function driver (block stack, which helper runs at which instruction, delete_block / retain_end bookkeeping, resolve_on_end maps) is not under contract, EXCEPT (i) the preparation of entry / exit code before the loop and (ii) ONE ITERATION of the loop (rule R19) for six cases, each a contract on the same extracted text restricted by its `requires`: inside a removed construct; the opener carrying a block-alternate; the matching `end` of a removed construct; an opener with only a block-entry probe; a block / loop with only a block-exit probe; a single-target branch with only a semantic-after probe (the last four in functions without function-level entry / exit code). All other combinations (several special requests on one instruction, `else`, br_table, pending bodies flushed at else / end, function-level code present) are NOT decided",
+LOWER_GLUE = ["Module::resolve_special_instrumentation: the per-function driver (block stack, which helper runs at which instruction, delete_block / retain_end bookkeeping, resolve_on_end maps) is not under contract, EXCEPT (i) the preparation of entry / exit code before the loop and (ii) ONE ITERATION of the loop (rule R19) for seven cases, each a contract on the same extracted text restricted by its `requires`: inside a removed construct; the opener carrying a block-alternate; the matching `end` of a removed construct; an opener with only a block-entry probe; a block / loop with only a block-exit probe; a single-target branch with only a semantic-after probe; an `end` outside any removed construct with bodies pending in either or both tables (the two flush loops are replaced there by calls of the flush regions, verified on their own against the same text: both tables are flushed at this `end` and their entries taken off) (the last five in functions without function-level entry / exit code). All other combinations (several special requests on one instruction, `else`, br_table, function-level code present) are NOT decided; the plan tables are seen through two unrelated views (an uninterpreted one where entries are added by the assumed save_* helpers, the std HashMap view where they are removed and flushed): that what was planned is what is flushed is read, not proved",
               "the save_* helpers use HashMap::entry().and_modify(closure): outside Verus (assumed where a contract of C19 / C20 needs them)",
               "the final emission of before / alternate / after lists in encode_internal",
               "'fires once when ...' is an execution-trace property: neither verifier has a WebAssembly semantics; what is proved is WHERE each helper places WHICH code (placement contracts written from the property text)",
               "TRUSTED: Inject::inject_all injects the slice in order (closure capturing &mut self)"]
 
-ENCODE_GLUE = "Module::encode_internal (src/ir/module/mod.rs): the call sites of recalculate_ids / fix_op_id_mapping and the per-section emission loops are not under contract, EXCEPT the per-instruction loop of the code section (unit V11, a region of encode_internal): every instruction and every injected instruction goes through fix_op_id_mapping with the three maps before it is emitted"
+ENCODE_GLUE = "Module::encode_internal (src/ir/module/mod.rs): the call sites of fix_op_id_mapping and the per-section emission loops are not under contract, EXCEPT the head of the function (unit V2, region compute_index_mappings: each of the three index spaces is re-indexed with its own container, flag and boundary, and the map that comes out binds every live item to its new position; that these three maps are the ones handed to the later regions is read off the text: they are immutable locals) and the per-instruction loop of the code section (unit V11, a region of encode_internal): every instruction and every injected instruction goes through fix_op_id_mapping with the three maps before it is emitted"
 V11_EMIT = ["V11_emit.encode_function_body.*", "V11_emit.fn:encode_function_body", "V11_emit.update_ids_and_encode.*", "V11_emit.fn:update_ids_and_encode",
             "V11_emit.fn:InstrumentationFlag::has_instr", "V11_emit.fn:InstrumentationFlag::check_special_is_resolved", "V11_emit.fn:lowered_upto"]
 V12_EXPORTS = ["V12_sections.encode_exports.*", "V12_sections.fn:Module::encode_exports", "V12_sections.fn:ModuleExports::iter"]
@@ -61,6 +62,9 @@ V12_GLOBALS = ["V12_sections.encode_globals.*", "V12_sections.fn:Module::encode_
 V12_IMPORTS = ["V12_sections.encode_imports.*", "V12_sections.fn:Module::encode_imports", "V12_sections.fn:ModuleImports::iter", "V12_sections.fn:Import::is_function"]
 V12_MEMS = ["V12_sections.encode_memories.local_memories_in_order_with_own_type", "V12_sections.fn:Module::encode_memories", "V12_sections.fn:Memories as Iter::iter"]
 V12_CEXPR = ["V12_sections.encode_element_exprs.*", "V12_sections.fn:Module::encode_element_exprs", "V12_sections.remap_const_expr.*", "V12_sections.fn:remap_const_expr"]
+V12_TABLES = ["V12_sections.encode_tables.every_table_in_order_with_own_type_and_remapped_initialiser", "V12_sections.fn:Module::encode_tables", "V12_sections.fn:ModuleTables::iter"]
+V12_TAGS = ["V12_sections.encode_tags.*", "V12_sections.fn:Module::encode_tags"]
+V12_ELEMS = ["V12_sections.encode_elements.every_segment_in_order_with_the_images_of_its_references", "V12_sections.fn:Module::encode_elements"]
 V12_CUSTOM = ["V12_sections.encode_custom_sections.*", "V12_sections.fn:Module::encode_custom_sections", "V12_sections.fn:CustomSections::iter"]
 V12_TRUST = ["TRUSTED model of the wasm-encoder section builders (V12): an export / data / custom section under construction is the sequence of entries handed to it; ExportKind::from(ExternalKind) is faithful; InitExpr::to_wasmencoder_type is faithful (numeric constants: Kani K4)",
              "V12 names three expressions of the data loop and one statement of the custom-section loop by rule R11 (iterator adapters / generic builders are outside Verus): their contracts are assumed; V12 assumes the InitInstr::fix_id_mapping contract that V3 proves",
@@ -73,13 +77,14 @@ V11_TRUST = ["TRUSTED model of wasm-encoder (V11): a function body under constru
 PROPS = {
     "C01": {
         "title": "Unmodified parse-then-encode yields a valid module",
-        "units": ["V9b_conv"],
+        "units": ["V9b_conv", "V12_sections"],
         "kani": ["k1_valtype_roundtrip", "k1_valtype_roundtrip_exn_cont", "k1_valtype_encoder_matches_upstream"],
         "obligations": ["K:k1_*", "V9b_conv.*.into_wasmparser.*", "V9b_conv.fn:* as From::from"],
-        "glue": ["Module::parse_internal and Module::encode_internal (payload decoding, section re-emission) are not under contract; `passes validation` is a predicate of wasmparser's validator over bytes produced there: not decided",
+        "obligations_extra": V12_TAGS + V12_TABLES + V12_ELEMS + V12_CEXPR,
+        "glue": ["Module::parse_internal is not under contract; of Module::encode_internal the tag, table and element sections are (V12 regions: every stored tag / table / element segment is re-emitted in order with its own kind, type and contents; wasm-encoder's section builders and the heap-type re-encoding are TRUSTED models), the other sections are claimed by the properties they matter for; `passes validation` is a predicate of wasmparser's validator over bytes produced there: not decided",
                  "profile of K1: numeric and vector types, unshared abstract heap types, concrete module type indices < 2^20; `shared` heap types and RecGroup/Id indices are outside it"],
         "design_ref": "DESIGN.md §4 K1, §5 C01",
-        "level_text": "Only the library's own type-conversion layer: every value type of the profile survives ValType -> DataType -> ValType unchanged and is re-emitted as exactly the wasm-encoder type upstream's re-encoder produces (Kani, complete over the profile); heap-type and block-type conversions are proved exact (Verus).",
+        "level_text": "The library's own type-conversion layer and the re-emission of the tag, table and element sections: every value type of the profile survives ValType -> DataType -> ValType unchanged and is re-emitted as exactly the wasm-encoder type upstream's re-encoder produces (Kani, complete over the profile); heap-type and block-type conversions are proved exact (Verus).",
     },
     "C02": {
         "title": "Unmodified round trip preserves module content",
@@ -151,7 +156,7 @@ PROPS = {
             "V3_remap.refers_to_func.*", "V3_remap.fn:refers_to_func", "V3_remap.update_fn_instr.*", "V3_remap.fn:update_fn_instr",
             "V3_remap.fix_op_id_mapping.*", "V3_remap.fn:fix_op_id_mapping", "V3_remap.InitInstr.*", "V3_remap.fn:InitInstr::fix_id_mapping",
             "V3_remap.fn:lemma_families_disjoint"],
-        "obligations_extra": V12_CEXPR + V12_IMPORTS + V12_EXPORTS + V12_START + V12_DATA + ["V11_emit.fn:encode_function_body", "V11_emit.update_ids_and_encode.*", "V11_emit.fn:update_ids_and_encode"],
+        "obligations_extra": V12_CEXPR + V12_ELEMS + V12_TABLES + V12_IMPORTS + V12_EXPORTS + V12_START + V12_DATA + ["V11_emit.fn:encode_function_body", "V11_emit.update_ids_and_encode.*", "V11_emit.fn:update_ids_and_encode"],
         "glue": V11_TRUST + V12_TRUST + [ENCODE_GLUE, "export / start / element-segment remapping lines in encode_internal", "'output validates' (wasmparser validator) is not decided"],
         "design_ref": "DESIGN.md §4 V2 V3, §5 C06",
     },
@@ -161,7 +166,7 @@ PROPS = {
         "obligations": V2_GENERIC + v2_inst("Global", "ModuleGlobals") + V6_GLOBALS + [
             "V3_remap.refers_to_global.*", "V3_remap.fn:refers_to_global", "V3_remap.update_global_instr.*", "V3_remap.fn:update_global_instr",
             "V3_remap.fix_op_id_mapping.*", "V3_remap.fn:fix_op_id_mapping", "V3_remap.InitInstr.*", "V3_remap.fn:InitInstr::fix_id_mapping"],
-        "obligations_extra": V12_CEXPR + V12_GLOBALS + V12_EXPORTS + V12_DATA + ["V11_emit.fn:encode_function_body", "V11_emit.update_ids_and_encode.*", "V11_emit.fn:update_ids_and_encode"],
+        "obligations_extra": V12_CEXPR + V12_ELEMS + V12_TABLES + V12_GLOBALS + V12_EXPORTS + V12_DATA + ["V11_emit.fn:encode_function_body", "V11_emit.update_ids_and_encode.*", "V11_emit.fn:update_ids_and_encode"],
         "glue": V11_TRUST + V12_TRUST + [ENCODE_GLUE, "global export emission; table/element constant expressions", "'output validates' is not decided"],
         "design_ref": "DESIGN.md §4 V2 V3, §5 C07",
     },
@@ -180,28 +185,30 @@ PROPS = {
         "units": ["V2_reindex", "V3_remap", "V6_api", "V6b_api2", "V11_emit", "V12_sections"],
         "obligations": V2_GENERIC + v2_inst("Function", "Functions") + v2_inst("Global", "ModuleGlobals") + v2_inst("Memory", "Memories") + V6_DELETES + [
             "V3_remap.update_*_instr.*", "V3_remap.fn:update_*_instr", "V3_remap.fn:InitInstr::fix_id_mapping"],
-        "obligations_extra": V11_CODE + V12_EXPORTS + V12_START + ["V11_emit.fn:encode_function_body", "V11_emit.update_ids_and_encode.*", "V11_emit.fn:update_ids_and_encode"],
+        "obligations_extra": V11_CODE + V12_EXPORTS + V12_START + V12_ELEMS + ["V11_emit.fn:encode_function_body", "V11_emit.update_ids_and_encode.*", "V11_emit.fn:update_ids_and_encode"],
         "glue": V11_TRUST + V12_TRUST + [ENCODE_GLUE, "ModuleExports::delete / ModuleImports::delete flags are honoured by emission loops in encode_internal",
                  "'fails loudly': update_* are proved panic-free exactly when every referenced id has an image; the converse (a missing image panics rather than writing an index) is by inspection of the three `None => panic!` arms"],
         "design_ref": "DESIGN.md §4 V2 V3, §5 C09",
     },
     "C10": {
         "title": "Replacing an import with a built function redirects all its uses",
-        "units": ["V6_api", "V2_reindex", "V3_remap"],
+        "units": ["V6_api", "V2_reindex", "V3_remap", "V12_sections"],
         "obligations": ["V6_api.convert_import_fn_to_local.*", "V6_api.fn:Module::convert_import_fn_to_local", "V6_api.delete_func.*", "V6_api.fn:Module::delete_func",
                         "V6_api.fn:Function::set_kind", "V6_api.fn:Functions::get_mut", "V6_api.Functions.get_fid_of_import.*", "V6_api.fn:Functions::get_fid_of_import", "V6_api.fn:lemma_first_defined_by", "V6_api.ModuleImports.delete.*", "V6_api.fn:ModuleImports::delete",
                         "V6_api.replace_import.*", "V6_api.fn:FunctionBuilder::replace_import_in_module_with_tag", "V6_api.fn:ModuleImports::get", "V6_api.fn:Types::params", "V6_api.fn:Types::results"]
                        + V2_GENERIC + v2_inst("Function", "Functions") + ["V3_remap.update_fn_instr.*", "V3_remap.fn:update_fn_instr", "V3_remap.refers_to_func.*"],
+        "obligations_extra": V12_ELEMS + V12_CEXPR + V12_EXPORTS + V12_START,
         "glue": [ENCODE_GLUE, "FunctionBuilder::replace_import_in_module_with_tag is under contract; ASSUMED there: the element-wise `==` of two Vec<DataType> (named same_signature by R11), str::to_string, and ModuleTypes::get in terms of the abstract signature lookup (the concrete table is V7's)"],
         "design_ref": "DESIGN.md §5 C10",
     },
     "C11": {
         "title": "Converting a local function to an import redirects all its uses",
-        "units": ["V6_api", "V2_reindex", "V3_remap"],
+        "units": ["V6_api", "V2_reindex", "V3_remap", "V12_sections"],
         "obligations": ["V6_api.convert_local_fn_to_import.*", "V6_api.fn:Module::convert_local_fn_to_import_with_tag", "V6_api.kf.convert_local_fn_to_import.*",
                         "V6_api.fn:Module::add_import", "V6_api.ModuleImports.add.*", "V6_api.fn:ModuleImports::add", "V6_api.fn:Functions::set_imported_fn_name",
                         "V2_reindex.lemma.import_order_survives_reorganisation", "V2_reindex.fn:lemma_import_order_preserved", "V2_reindex.fn:lemma_origin_monotone_on_imports"]
                        + V2_GENERIC + v2_inst("Function", "Functions") + ["V3_remap.update_fn_instr.*", "V3_remap.fn:update_fn_instr", "V3_remap.refers_to_func.*"],
+        "obligations_extra": V12_ELEMS + V12_CEXPR + V12_EXPORTS + V12_START,
         "glue": [ENCODE_GLUE],
         "design_ref": "DESIGN.md §5 C11",
     },
@@ -284,7 +291,7 @@ PROPS = {
     "C19": {
         "title": "Block exit probes fire when the block or arm falls through",
         "units": ["V8_lower"],
-        "obligations": V8_BASE + ["V8_lower.flush_*", "V8_lower.fn:Module::flush_*", "V8_lower.lower_block_exit_opener.*", "V8_lower.fn:Module::lower_block_exit_opener", "V8_lower.resolve_bodies.*", "V8_lower.fn:resolve_bodies", "V8_lower.plan_resolution_block_exit.*", "V8_lower.fn:plan_resolution_block_exit"],
+        "obligations": V8_BASE + ["V8_lower.flush_*", "V8_lower.fn:Module::flush_*", "V8_lower.lower_block_exit_opener.*", "V8_lower.fn:Module::lower_block_exit_opener", "V8_lower.lower_end_with_pending_bodies.*", "V8_lower.fn:Module::lower_end_with_pending_bodies", "V8_lower.resolve_bodies.*", "V8_lower.fn:resolve_bodies", "V8_lower.plan_resolution_block_exit.*", "V8_lower.fn:plan_resolution_block_exit"],
         "glue": LOWER_GLUE + ["ASSUMED: the contracts of save_not_flagged_body_to_resolve{,_inner} (HashMap entry().and_modify(closure).or_insert() chains): they add the body, unflagged, under (block, mode) and touch nothing else"],
         "design_ref": "DESIGN.md §5 C17-C20",
         "level_text": "Placement only. Registration: the probe of an `if` is due at its else-or-end, that of a block / loop / else before the `end` of that very construct (innermost open one), unflagged, nothing for other instructions. Emission: the code saved for a construct's `else`/`end` is emitted into the requested list of that instruction as (flag-guarded chain; unconditional bodies), nothing else changes. The driver that pairs the two (block stack, resolve at Else/End) is glue.",
@@ -292,7 +299,7 @@ PROPS = {
     "C20": {
         "title": "Semantic-after probes fire exactly once after the instruction",
         "units": ["V8_lower"],
-        "obligations": V8_BASE + ["V8_lower.flush_*", "V8_lower.fn:Module::flush_*", "V8_lower.lower_semantic_after_branch.*", "V8_lower.fn:Module::lower_semantic_after_branch", "V8_lower.create_bool_flag.*", "V8_lower.fn:create_bool_flag", "V8_lower.fn:add_local", "V8_lower.resolve_bodies.*", "V8_lower.fn:resolve_bodies", "V8_lower.plan_resolution_semantic_after.*", "V8_lower.fn:plan_resolution_semantic_after",
+        "obligations": V8_BASE + ["V8_lower.flush_*", "V8_lower.fn:Module::flush_*", "V8_lower.lower_semantic_after_branch.*", "V8_lower.fn:Module::lower_semantic_after_branch", "V8_lower.lower_end_with_pending_bodies.*", "V8_lower.fn:Module::lower_end_with_pending_bodies", "V8_lower.create_bool_flag.*", "V8_lower.fn:create_bool_flag", "V8_lower.fn:add_local", "V8_lower.resolve_bodies.*", "V8_lower.fn:resolve_bodies", "V8_lower.plan_resolution_semantic_after.*", "V8_lower.fn:plan_resolution_semantic_after",
                                    "V8_lower.kf.resolve_bodies.*", "V8_lower.lemma.emitted_chain_is_well_nested_up_to_two_flagged_bodies", "V8_lower.fn:lemma_chain_agrees_up_to_two"],
         "glue": LOWER_GLUE + ["ASSUMED: the contracts of save_{not_,}flagged_body_to_resolve (HashMap entry chains) and of the br_table target loop (a for_each closure, named brtable_save_targets by rule R11): they add the body under (block, mode), flagged with the given local or unflagged, and touch nothing else",
                               "TRUSTED model of wasmparser::BrTable: targets() yields br_targets(t), default() is br_default(t)"],
@@ -380,16 +387,21 @@ PROPS = {
     },
     "C23": {
         "title": "Side-effect report lists exactly the tagged additions and probes",
-        "units": ["V12_sections"],
+        "units": ["V12_sections", "V7_types"],
         "obligations": ["V12_sections.encode_exports.one_record_per_live_tagged_export", "V12_sections.encode_exports.no_other_records", "V12_sections.fn:Module::encode_exports",
                         "V12_sections.encode_imports.one_record_per_live_tagged_import", "V12_sections.fn:Module::encode_imports",
                         "V12_sections.fn:Export as TagUtils::get_tag", "V12_sections.fn:Import as TagUtils::get_tag",
-                        "V12_sections.encode_memories.one_record_per_tagged_local_memory", "V12_sections.fn:Module::encode_memories", "V12_sections.fn:Memory as TagUtils::get_tag"],
+                        "V12_sections.encode_memories.one_record_per_tagged_local_memory", "V12_sections.fn:Module::encode_memories", "V12_sections.fn:Memory as TagUtils::get_tag",
+                        "V12_sections.encode_tables.one_record_per_tagged_table", "V12_sections.encode_tables.no_other_records", "V12_sections.fn:Module::encode_tables", "V12_sections.fn:Table as TagUtils::get_tag",
+                        "V12_sections.encode_elements.one_record_per_tagged_segment", "V12_sections.encode_elements.no_other_records", "V12_sections.fn:Module::encode_elements", "V12_sections.fn:Element as TagUtils::get_tag",
+                        "V12_sections.encode_type_section.one_record_per_tagged_type", "V12_sections.encode_type_section.no_other_records", "V12_sections.fn:Module::encode_type_section", "V12_sections.fn:Types as TagUtils::get_tag",
+                        # the stored types (and with them their tags) are not touched by later additions: a type gets a record iff it was added with a tag
+                        "V7_types.add_type.existing_types_unchanged", "V7_types.add_type.new_type_gets_next_id_and_own_group", "V7_types.fn:ModuleTypes::add_type"],
         "glue": ["ASSUMED: add_injection (a HashMap entry().and_modify(closure).or_insert() chain) appends the record to the list of its kind and touches nothing else; #[derive(Clone)] of Tag and String::clone yield equal values; str::to_string is modelled by an uninterpreted str_owned",
-                 "only the Import, Export and Memory records are decided. Records for types, functions, locals, globals, data, tables, elements and probes (add_injections / add_opcode_injections / add_corrected_special_injections: closure-based, over HashMaps) are NOT under contract; that probe bodies use the encoded index space follows only from V11 (every injected operator is remapped in place before the records are built) and is not stated as a clause",
+                 "only the Type, Import, Export, Memory, Table and Element records are decided. Records for functions, locals, globals, data and probes (add_injections / add_opcode_injections / add_corrected_special_injections: closure-based, over HashMaps) are NOT under contract; that probe bodies use the encoded index space follows only from V11 (every injected operator is remapped in place before the records are built) and is not stated as a clause",
                  "that items of the parsed module carry no tag (so get no record) is a property of parse_internal (it builds every item with tag None): read, not proved"],
         "design_ref": "DESIGN.md §5 C23",
-        "level_text": "Partial (three of twelve record kinds): when side effects are pulled, the report gains exactly one Export record per live tagged export, one Import record per live tagged import and one Memory record per tagged local memory - with the item's own name / kind / index resp. module / name / type resp. id / limits and its tag - and no record for untagged or deleted ones; nothing else in the report changes in those three loops. After fix F25.",
+        "level_text": "Partial (six of twelve record kinds): when side effects are pulled, the report gains exactly one Type record per tagged type of the module (carrying that type; V7: adding a type never changes a stored type or its tag), exactly one Export record per live tagged export, one Import record per live tagged import, one Memory record per tagged local memory, one Table record per tagged table and one Element record per tagged element segment - with the item's own name / kind / index resp. module / name / type resp. id / limits and its tag - and no record for untagged or deleted ones; nothing else in the report changes in those three loops. After fix F25.",
     },
 }
 
